@@ -239,7 +239,7 @@ def row_matches(facts, rl, inv, ref, row):
         if tk == "hex":
             # any(!hexdigit) true | len % 2 != 0   -- details are checked by C12 HEX-GUARD
             kinds = sorted(t[0] for t in trigs)
-            return kinds == ["cmp", "pred"]
+            return kinds in (["cmp", "pred"], ["any", "cmp"], ["all", "cmp"])
         return False
     if ref["kind"] in ("propagate", "tail"):
         if row["kind"] != ref["kind"]:
